@@ -148,6 +148,8 @@ def gen_error_codes(info):
                 code_passthrough = m2.group(1) == m2.group(2)
                 if not code_passthrough:
                     problems.append(f"code(): ServerError arm is not the identity: {arm}")
+            elif re.fullmatch(r"ServerError\((?:ref\s+)?(\w+)\)\s*=>\s*\*\s*\1", arm):
+                code_passthrough = True
             elif m and m.group(2) in consts:
                 code_of[m.group(1)] = consts[m.group(2)]
             elif m and eval_int(m.group(2), allc) is not None:
@@ -166,6 +168,25 @@ def gen_error_codes(info):
         problems.append("impl From<i32> not found")
     else:
         body = find_block(from_impl, r"match code\s*\{") or ""
+        if not body:
+            # table-driven spelling: `TABLE.iter().find_map(|&(k, v)| (k == code).then_some(v)).unwrap_or(Self::ServerError(code))`
+            # (or `.find(|(k, _)| *k == code).map(|(_, v)| *v).unwrap_or(..)`) over a const array of (code, variant) pairs
+            fb = re.sub(r"\s+", " ", find_block(from_impl, r"fn from\(\s*code\s*:\s*i32\s*\)\s*->\s*Self\s*\{") or "")
+            mt = re.match(r" ?(\w+) ?\. ?iter\(\) ?\.", fb)
+            tail_ok = bool(re.search(r"\.unwrap_or(?:_else)?\( ?(?:\|\| ?)?(?:Self|ErrorCode)::ServerError\(code\) ?\) ?$", fb))
+            eq_ok = bool(re.search(r"== ?code\b", fb)) and ("find_map" in fb or ".find(" in fb)
+            if mt and tail_ok and eq_ok:
+                tm = re.search(r"const " + re.escape(mt.group(1)) + r"\s*:\s*\[[^\]]*\]\s*=\s*\[(.*?)\]\s*;", src, flags=re.S)
+                if tm:
+                    for a, b in re.findall(r"\(\s*([^,()]+?)\s*,\s*(?:ErrorCode|Self)::(\w+)\s*\)", tm.group(1)):
+                        v = eval_int(a, allc)
+                        if v is not None and b in named:
+                            kind_of.append((v, b))
+                        else:
+                            problems.append(f"from(): unrecognised table entry ({a}, {b})")
+                    default_ok = True
+                else:
+                    problems.append("from(): lookup table not found")
         for arm in [re.sub(r"\b(?:ErrorCode|Self)::", "", a.strip()) for a in body.split(",") if a.strip()]:
             m = re.fullmatch(r"(-?[\w ]+?)\s*=>\s*(\w+)", arm)
             m2 = re.fullmatch(r"(\w+)\s*=>\s*ServerError\((\w+)\)", arm)
@@ -614,7 +635,21 @@ def gen_default_ports(info):
         # the function body must be exactly one `match <param> { ... }`
         mm = re.fullmatch(r"\s*match\s+" + re.escape(m.group(1)) + r"\s*\{(.*)\}\s*", fn_body or "", flags=re.S)
         if not mm:
-            problems.append("default_port body is not a single `match scheme { .. }`")
+            # table-driven spelling: `let s = scheme?; TABLE.iter().find(|(k, _)| *k == s).map(|&(_, p)| p)`
+            # (or find_map) over `const TABLE: [(&str, u16); N] = [("http", 80), ..]` — first match wins, else None
+            fb = re.sub(r"\s+", " ", fn_body or "").strip()
+            mt = re.fullmatch(r"let (\w+) = " + re.escape(m.group(1)) + r"\?; (\w+) ?\. ?iter\(\) ?\. ?(?:find\(\|\(?&?\(?(\w+), _\)\)?\| ?\*?\*?\3 == \*?\1\) ?\. ?map\(\|&?\(_, (\w+)\)\| ?\*?\4\)|find_map\(\|&?\((\w+), (\w+)\)\| ?\(\*?\5 == \*?\1\)\.then_some\(\*?\6\)\))", fb)
+            tm = mt and re.search(r"const " + re.escape(mt.group(2)) + r"\s*:\s*\[[^\]]*\]\s*=\s*\[(.*?)\]\s*;", src, flags=re.S)
+            if mt and tm:
+                for sname, port in re.findall(r'\(\s*"([^"\\]*)"\s*,\s*(\d+)\s*\)', tm.group(1)):
+                    if int(port) > 65535:
+                        problems.append(f"port out of u16 range in table entry {sname!r}")
+                    table.append((sname, int(port)))
+                if not table:
+                    problems.append("default_port: empty lookup table")
+                default_none = True
+            else:
+                problems.append("default_port body is not a single `match scheme { .. }`")
         else:
             body = mm.group(1)
     if body is not None:
@@ -637,7 +672,9 @@ def gen_default_ports(info):
         if not default_none:
             problems.append("default_port: no `_ => None` arm")
     # the call site must fold exactly `default_port(uri.scheme_str())` against the parsed port
-    if not re.search(r"match\s+default_port\(\s*uri\.scheme_str\(\)\s*\)\s*\{\s*Some\((\w+)\)\s+if\s+\1\s*==\s*port_u16\s*=>\s*Port::Default\s*,\s*_\s*=>\s*port_u16\.into\(\)\s*,?\s*\}", src):
+    site_match = re.search(r"match\s+default_port\(\s*uri\.scheme_str\(\)\s*\)\s*\{\s*Some\((\w+)\)\s+if\s+\1\s*==\s*port_u16\s*=>\s*Port::Default\s*,\s*_\s*=>\s*(?:port_u16\.into\(\)|Port::Fixed\(port_u16\))\s*,?\s*\}", src)
+    site_if = re.search(r"if\s+default_port\(\s*uri\.scheme_str\(\)\s*\)\s*==\s*Some\(port_u16\)\s*\{\s*Port::Default\s*\}\s*else\s*\{\s*(?:port_u16\.into\(\)|Port::Fixed\(port_u16\))\s*\}", src)
+    if not (site_match or site_if):
         problems.append("call site `match default_port(uri.scheme_str()) { Some(p) if p == port_u16 => Port::Default, _ => port_u16.into() }` not found")
     ok = not problems
     L = []
@@ -714,7 +751,13 @@ def gen_error_consts(info):
         """(code const, msg const, data prefix) of a body that is `ErrorObjectOwned::owned(CODE, MSG,
         Some(format!("<prefix>{limit}")))` — directly or through one private helper function"""
         b = re.sub(r"\s+", " ", body).strip().rstrip(";").strip()
-        b = re.sub(r"^return ", "", b)
+        # inline leading `let x = <expr>;` bindings (textual; the expressions here are pure)
+        for _ in range(8):
+            ml = re.match(r"let (\w+)(?:\s*:\s*[^=;]+)? = ([^;]+); (.*)$", b)
+            if not ml:
+                break
+            b = re.sub(r"\b" + re.escape(ml.group(1)) + r"\b", ml.group(2).strip(), ml.group(3))
+        b = re.sub(r"^return ", "", b).rstrip(";").strip()
         m = re.fullmatch(owned_re, b)
         if m:
             code, msg, fmt, arg = m.groups()
@@ -755,9 +798,24 @@ def gen_error_consts(info):
                 rejects[name] = (code, msg, prefix)
                 continue
         problems.append(f"{name}: unrecognised shape")
+        # best effort so that the model keeps compiling (the `*_translator_ok` obligation stays broken and
+        # the correspondence validates whatever is guessed here): first code / message constant and first
+        # string literal reachable from the body
+        reach = body or ""
+        for callee in re.findall(r"\b(\w+)\(", reach):
+            cb = find_block(src, r"\bfn " + re.escape(callee) + r"\b[^{]*\{")
+            if cb and callee != name:
+                reach += " " + cb
+        gc = next((c for c in re.findall(r"\b(\w+_CODE)\b", reach) if c in codes), None)
+        gm = next((c for c in re.findall(r"\b(\w+_MSG)\b", reach) if c in msgs), None)
+        gl = re.search(r'"((?:[^"\\]|\\.)*?)\{', reach)
+        if gc and gm:
+            rejects[name] = (gc, gm, gl.group(1) if gl else "")
+    placeholders = []
     for need in ["reject_too_big_request", "reject_too_big_batch_request", "reject_too_big_batch_response", "reject_too_many_subscriptions"]:
         if need not in rejects:
             problems.append(f"{need} not found")
+            placeholders.append(need)
     ok = not problems
 
     def lstr(x):
@@ -778,6 +836,9 @@ def gen_error_consts(info):
     for name, (code, msg, prefix) in sorted(rejects.items()):
         L.append(f"/-- `{name}(limit)`: (code, message, data prefix before the decimal limit) -/")
         L.append(f"def {name} : Int × String × String := ({code}, {msg}, {json.dumps(prefix)})")
+    for name in placeholders:
+        L.append(f"/-- `{name}` was not found in the source: placeholder so that the models still compile -/")
+        L.append(f'def {name} : Int × String × String := (0, "", "")')
     L.append("")
     L.append("end Jrpc.Gen.E")
     write_if_changed(os.path.join(GEN, "ErrorConsts.lean"), "\n".join(L) + "\n")
@@ -974,6 +1035,24 @@ def gen_limit_wiring(info):
         m2s = re.findall(r"too_large\(\s*([^)]+?)\s*\)", cbody)
         ok1 = bool(m1 and is_param(m1.group(1)))
         ok2 = bool(m2s) and all(is_param(x) for x in m2s)
+        if not m2s:
+            # `too_large(..)` may sit in a private helper that is handed the parameter
+            # (e.g. `Err(e) => return read_body_failed(e, max_request_size)`): follow one call level
+            found = []
+            for mc in re.finditer(r"\b(\w+)\(([^()]*)\)", cbody):
+                args = [a.strip() for a in mc.group(2).split(",")]
+                if not any(is_param(a) for a in args if a):
+                    continue
+                hp, hb = fn_text(http, mc.group(1))
+                if hb is None or "too_large(" not in hb:
+                    continue
+                hnames = [x.split(":")[0].strip() for x in (hp or "").split(",")]
+                if len(hnames) != len(args):
+                    continue
+                passed = {hn for hn, a in zip(hnames, args) if a and is_param(a)}
+                for x in re.findall(r"too_large\(\s*([^)]+?)\s*\)", hb):
+                    found.append(re.sub(r"\s+as\s+\w+$", "", x.strip()) in passed)
+            ok2 = bool(found) and all(found)
         sites_req.append(("http.rs:call_with_service:read_body", "max_request_body_size" if ok1 else "?"))
         sites_req.append(("http.rs:call_with_service:too_large", "max_request_body_size" if ok2 else "?"))
         if not (ok1 and ok2):
